@@ -471,7 +471,35 @@ def rule_const_arith(run):
     intarith.run_extension_rule(run, "C09.ext")   # constant fixed-point +/- is Unsigned/Signed add/sub: extension, negation at result width, wrap
 
 
-RULES = [rule_format, rule_ctor, rule_ctor_abs, rule_round, rule_sat, rule_siblings, rule_template_arg, rule_replacements, rule_castmatrix, rule_choose_first, rule_views, rule_template_cache, rule_values, rule_const_resize, rule_compare_formats, rule_const_arith]
+def rule_params_forwarded(run):
+    run.begin(
+        "C19.forward",
+        "no option of the fixed-point API is dropped on the way: every parameter of every function of cohdl/std/_fixed.py is "
+        "used by its body (x.resize(l, r, round_style=.., overflow_style=..) forwards BOTH styles to resize_fn); descriptor "
+        "protocol parameters (__get__'s objtype) are the only reviewed exception",
+        floor=40,
+    )
+    fx = run.idx.mod("cohdl/std/_fixed.py")
+    EXEMPT = {("__get__", "objtype"): "descriptor protocol: the owner class is not needed"}
+    for q, f in fx.functions.items():
+        a = f.node.args
+        params = [x.arg for x in a.posonlyargs + a.args + a.kwonlyargs]
+        if all(isinstance(st, (ast.Pass, ast.Raise)) or (isinstance(st, ast.Expr) and isinstance(st.value, ast.Constant)) for st in f.node.body):
+            continue
+        used = {n.id for n in ast.walk(f.node) if isinstance(n, ast.Name) and isinstance(n.ctx, ast.Load)}
+        for prm in params:
+            if prm in ("self", "cls") or (q.split(".")[-1].split("#")[0], prm) in EXEMPT:
+                continue
+            run.ob(prm in used, q, file=fx.rel, line=f.node.lineno, detail=f"uses-{prm}", expected=f"parameter `{prm}` reaches the implementation", found="ok" if prm in used else f"`{prm}` is accepted and ignored", sample=(q.endswith("_Resize.__call__") and prm == "overflow_style"))
+    run.end()
+
+
+def rule_runtime_resize(run):
+    from ..rules import resizemodel
+    resizemodel.run_rule(run, "C09.resize")    # the run-time resize (with zero padding) that aligns operands of different right bounds
+
+
+RULES = [rule_format, rule_ctor, rule_ctor_abs, rule_round, rule_sat, rule_siblings, rule_template_arg, rule_replacements, rule_castmatrix, rule_choose_first, rule_views, rule_template_cache, rule_values, rule_const_resize, rule_compare_formats, rule_const_arith, rule_params_forwarded, rule_runtime_resize]
 LEVEL = "other"
 EXPLANATION = (
     "Fixed-point exactness is decided for the format algebra: + - * of both classes are interpreted abstractly over a "
